@@ -21,18 +21,18 @@ theorem getOp_cons_fresh {w : World} {op x : Nat} {info i0 : OpInfo} (hf : (getO
       subst this; rw [h] at hf; cases hf
   rw [hne]; exact h
 
-def TimerFrame (op k : Nat) : K := .user op (.timerDone k true)
+def TimerFrame (op k c : Nat) : K := .user op (.timerDone k true c)
 
 /-- Frames of repeating-timer callbacks belong to operations recorded as repeating timers. -/
 def KindOk (w : World) : Prop :=
-  ∀ op k, TimerFrame op k ∈ w.stack → ∃ info, getOp w op = some info ∧ info.kind = .timerRep
+  ∀ op k c, TimerFrame op k c ∈ w.stack → ∃ info, getOp w op = some info ∧ info.kind = .timerRep
 
 set_option hygiene false in
 macro "kinds_branch" : tactic =>
   `(tactic| first
     | (cases h; done)
     | (cases h
-       refine ⟨fun x info hx => hx, fun op k hm => ?_⟩
+       refine ⟨fun x info hx => hx, fun op k c hm => ?_⟩
        try simp only [TimerFrame, hst, List.mem_cons, K.user.injEq, After.timerDone.injEq, reduceCtorEq, false_and, false_or,
          and_false, or_false, setObj_stack, unsetPending_stack] at hm ⊢
        first
@@ -43,7 +43,7 @@ macro "kinds_branch" : tactic =>
 theorem cancelStep_kinds (w w' : World) (k : Nat) (phase : Phase) (rest : List K) (e : Ev)
     (hst : w.stack = .cancelCall k phase :: rest) (h : cancelStep w k phase rest e = some w') :
     (∀ x info, getOp w x = some info → getOp w' x = some info) ∧
-    (∀ op k, TimerFrame op k ∈ w'.stack → TimerFrame op k ∈ w.stack ∨ ∃ info, getOp w op = some info ∧ info.kind = .timerRep) := by
+    (∀ op k c, TimerFrame op k c ∈ w'.stack → TimerFrame op k c ∈ w.stack ∨ ∃ info, getOp w op = some info ∧ info.kind = .timerRep) := by
   unfold cancelStep at h
   cases hg : getObj w k with
   | none => simp [hg] at h
@@ -56,7 +56,7 @@ theorem cancelStep_kinds (w w' : World) (k : Nat) (phase : Phase) (rest : List K
       all_goals first
         | (cases h; done)
         | (cases h
-           refine ⟨fun x info hx => by simpa [getOp] using hx, fun op0 k0 hm => ?_⟩
+           refine ⟨fun x info hx => by simpa [getOp] using hx, fun op0 k0 c0 hm => ?_⟩
            simp only [TimerFrame, List.mem_cons, K.user.injEq, reduceCtorEq, and_false, false_or] at hm
            rw [hst]; exact Or.inl (List.mem_cons_of_mem _ hm))
     | ret r =>
@@ -65,37 +65,37 @@ theorem cancelStep_kinds (w w' : World) (k : Nat) (phase : Phase) (rest : List K
       all_goals first
         | (cases h; done)
         | (cases h
-           refine ⟨fun x info hx => hx, fun op0 k0 hm => ?_⟩
+           refine ⟨fun x info hx => hx, fun op0 k0 c0 hm => ?_⟩
            rw [hst]; exact Or.inl (List.mem_cons_of_mem _ hm))
     | _ => simp at h
 
 theorem pollDispatch_kinds (w w' : World) (op : Nat) (any : Bool) (rest : List K)
     (hst : w.stack = .pollCall any :: rest) (h : pollDispatch w op rest = some w') :
     (∀ x info, getOp w x = some info → getOp w' x = some info) ∧
-    (∀ op k, TimerFrame op k ∈ w'.stack → TimerFrame op k ∈ w.stack ∨ ∃ info, getOp w op = some info ∧ info.kind = .timerRep) := by
+    (∀ op k c, TimerFrame op k c ∈ w'.stack → TimerFrame op k c ∈ w.stack ∨ ∃ info, getOp w op = some info ∧ info.kind = .timerRep) := by
   unfold pollDispatch at h
   cases hop : getOp w op with
   | none => simp [hop] at h
   | some info =>
     simp only [hop] at h
-    have old : ∀ (st : List K) (op0 k0 : Nat), TimerFrame op0 k0 ∈ st → (∀ f ∈ st, f ∈ rest ∨ f = .pollCall true ∨ ∃ a, f = .user op a ∧ ∀ k, a ≠ .timerDone k true) →
-        TimerFrame op0 k0 ∈ w.stack := by
-      intro st op0 k0 hm hall
+    have old : ∀ (st : List K) (op0 k0 c0 : Nat), TimerFrame op0 k0 c0 ∈ st → (∀ f ∈ st, f ∈ rest ∨ f = .pollCall true ∨ ∃ a, f = .user op a ∧ ∀ k c, a ≠ .timerDone k true c) →
+        TimerFrame op0 k0 c0 ∈ w.stack := by
+      intro st op0 k0 c0 hm hall
       rcases hall _ hm with h1 | h1 | ⟨a, h1, h2⟩
       · rw [hst]; exact List.mem_cons_of_mem _ h1
       · simp [TimerFrame] at h1
-      · simp only [TimerFrame, K.user.injEq] at h1; exact absurd h1.2.symm (h2 k0)
+      · simp only [TimerFrame, K.user.injEq] at h1; exact absurd h1.2.symm (h2 k0 c0)
     split at h
     · -- posted handler
       repeat' split at h
       all_goals first
         | (cases h; done)
         | (cases h
-           refine ⟨fun x i hx => hx, fun op0 k0 hm => Or.inl (old _ op0 k0 hm ?_)⟩
+           refine ⟨fun x i hx => hx, fun op0 k0 c0 hm => Or.inl (old _ op0 k0 c0 hm ?_)⟩
            intro f hf
            simp only [List.mem_cons] at hf
            rcases hf with rfl | rfl | hf
-           · exact Or.inr (Or.inr ⟨_, rfl, by intro k; simp⟩)
+           · exact Or.inr (Or.inr ⟨_, rfl, by intro k c; simp⟩)
            · exact Or.inr (Or.inl rfl)
            · exact Or.inl hf)
     · cases hg : getObj w info.obj with
@@ -106,28 +106,28 @@ theorem pollDispatch_kinds (w w' : World) (op : Nat) (any : Bool) (rest : List K
         · -- timer
           split at h
           · cases h
-            refine ⟨fun x i hx => hx, fun op0 k0 hm => ?_⟩
+            refine ⟨fun x i hx => hx, fun op0 k0 c0 hm => ?_⟩
             simp only [TimerFrame, List.mem_cons, K.user.injEq, After.timerDone.injEq, reduceCtorEq, false_or, beq_iff_eq] at hm
             rcases hm with ⟨rfl, _, hk⟩ | hm
-            · exact Or.inr ⟨info, hop, by simpa using hk.symm⟩
+            · exact Or.inr ⟨info, hop, by simpa using hk.1.symm⟩
             · rw [hst]; exact Or.inl (List.mem_cons_of_mem _ hm)
           · cases h
         · repeat' split at h
           all_goals first
             | (cases h; done)
             | (cases h
-               refine ⟨fun x i hx => by simpa [getOp] using hx, fun op0 k0 hm => Or.inl (old _ op0 k0 hm ?_)⟩
+               refine ⟨fun x i hx => by simpa [getOp] using hx, fun op0 k0 c0 hm => Or.inl (old _ op0 k0 c0 hm ?_)⟩
                intro f hf
                simp only [List.mem_cons] at hf
                rcases hf with rfl | rfl | hf
-               · exact Or.inr (Or.inr ⟨_, rfl, by intro k; simp⟩)
+               · exact Or.inr (Or.inr ⟨_, rfl, by intro k c; simp⟩)
                · exact Or.inr (Or.inl rfl)
                · exact Or.inl hf)
 
 /-- What one step does to the operation table and to repeating-timer frames. -/
 theorem step_kinds (w w' : World) (e : Ev) (h : step w e = some w') :
     (∀ x info, getOp w x = some info → getOp w' x = some info) ∧
-    (∀ op k, TimerFrame op k ∈ w'.stack → TimerFrame op k ∈ w.stack ∨ ∃ info, getOp w op = some info ∧ info.kind = .timerRep) := by
+    (∀ op k c, TimerFrame op k c ∈ w'.stack → TimerFrame op k c ∈ w.stack ∨ ∃ info, getOp w op = some info ∧ info.kind = .timerRep) := by
   unfold step at h
   split at h
   · rename_i k kind hst
@@ -140,14 +140,14 @@ theorem step_kinds (w w' : World) (e : Ev) (h : step w e = some w') :
           (applyAfter { w with stack := rest } op a).ops = w.ops := by
         intro a
         cases a with
-        | timerDone k rep =>
+        | timerDone k rep cb =>
           simp only [applyAfter]
           cases getObj { w with stack := rest } k with
           | none => exact ⟨rfl, rfl⟩
           | some o => simp only; repeat' split
                       all_goals first | exact ⟨rfl, rfl⟩ | exact ⟨by simp, by simp⟩
         | _ => exact ⟨rfl, rfl⟩
-      refine ⟨fun x info hx => ?_, fun op0 k hm => ?_⟩
+      refine ⟨fun x info hx => ?_, fun op0 k c0 hm => ?_⟩
       · unfold getOp at hx ⊢; rw [(hs after).2]; exact hx
       · rw [(hs after).1] at hm; rw [hst]; exact Or.inl (List.mem_cons_of_mem _ hm)
     · cases h
@@ -172,7 +172,7 @@ theorem step_kinds (w w' : World) (e : Ev) (h : step w e = some w') :
       all_goals first
         | kinds_branch
         | (cases h
-           refine ⟨fun x info hx => by simpa [getOp] using hx, fun op0 k0 hm => ?_⟩
+           refine ⟨fun x info hx => by simpa [getOp] using hx, fun op0 k0 c0 hm => ?_⟩
            rw [hst]; exact Or.inl (List.mem_cons_of_mem _ (by simpa using hm)))
   · rename_i k rest isNil hst
     cases hg : getObj w k with
@@ -184,7 +184,7 @@ theorem step_kinds (w w' : World) (e : Ev) (h : step w e = some w') :
         | kinds_branch
         | (cases h
            have hs : (closeObj w o).stack = w.stack ∧ (closeObj w o).ops = w.ops := by unfold closeObj; split <;> exact ⟨rfl, rfl⟩
-           refine ⟨fun x info hx => by unfold getOp at hx ⊢; rw [hs.2]; exact hx, fun op0 k0 hm => ?_⟩
+           refine ⟨fun x info hx => by unfold getOp at hx ⊢; rw [hs.2]; exact hx, fun op0 k0 c0 hm => ?_⟩
            rw [hst]; exact Or.inl (List.mem_cons_of_mem _ hm))
   · rename_i op k rep ticks rest op' res n data early hst
     cases hg : getObj w k with
@@ -202,7 +202,7 @@ theorem step_kinds (w w' : World) (e : Ev) (h : step w e = some w') :
       all_goals first
         | kinds_branch
         | (cases h
-           refine ⟨fun x info hx => by simpa [getOp] using hx, fun op0 k0 hm => ?_⟩
+           refine ⟨fun x info hx => by simpa [getOp] using hx, fun op0 k0 c0 hm => ?_⟩
            rw [hst]; exact Or.inl (List.mem_cons_of_mem _ (by simpa using hm)))
   · rename_i k rest isNil hst
     cases hg : getObj w k with
@@ -241,7 +241,7 @@ theorem step_kinds (w w' : World) (e : Ev) (h : step w e = some w') :
       | (cases h; done)
       | (rename_i h1 h2
          cases h
-         refine ⟨fun x info hx => getOp_cons_fresh ?_ hx rfl, fun op0 k0 hm => ?_⟩
+         refine ⟨fun x info hx => getOp_cons_fresh ?_ hx rfl, fun op0 k0 c0 hm => ?_⟩
          · first
              | (simp only [Bool.or_eq_true, not_or, Bool.not_eq_true] at h2; exact h2.1)
              | (simp only [Bool.or_eq_true, not_or, Bool.not_eq_true] at h1; exact h1.1)
@@ -250,12 +250,12 @@ theorem step_kinds (w w' : World) (e : Ev) (h : step w e = some w') :
          · simp only [TimerFrame, List.mem_cons, reduceCtorEq, false_or] at hm
            exact Or.inl hm)
       | (cases h
-         refine ⟨fun x info hx => hx, fun op0 k0 hm => ?_⟩
+         refine ⟨fun x info hx => hx, fun op0 k0 c0 hm => ?_⟩
          simp only [TimerFrame, push, List.mem_cons, reduceCtorEq, false_or] at hm
          exact Or.inl hm)
       | (cases h
          rename_i hst
-         refine ⟨fun x info hx => hx, fun op0 k0 hm => ?_⟩
+         refine ⟨fun x info hx => hx, fun op0 k0 c0 hm => ?_⟩
          rw [hst]; exact Or.inl (List.mem_cons_of_mem _ hm))
 
 end Sonic.Model.Loop
